@@ -82,19 +82,20 @@ Section MaintProofs.
   Lemma after_pings_flagged now answers nodes i m :
     In m (apings now answers nodes i) -> n_failed m = true ->
     In m nodes \/
-    exists n, In n nodes /\ n_slot n = i /\ quest now n = true /\ answers n = false /\
+    exists n, In n nodes /\ n_slot n = i /\ quest now n = true /\ answers n = PSilent /\
               m = apply_update now UFailedPing n.
   Proof.
     intros Hin Hf. destruct (after_pings_origin _ _ _ _ _ Hin) as (n & Hn & [->|(Hs & Hq & ->)]).
     - left. exact Hn.
-    - right. exists n. unfold settle_ping in *. destruct (answers n) eqn:Ea.
+    - unfold settle_ping in *. destruct (answers n) eqn:Ea.
+      + right. exists n. repeat split; assumption.
       + cbn in Hf. discriminate Hf.
-      + repeat split; assumption.
+      + left. exact Hn.
   Qed.
 
   (* an answered ping makes the entry good (when it is not bad for another reason) *)
   Lemma settle_answered_good now answers n :
-    answers n = true -> quest now n = true ->
+    answers n = PSameId -> quest now n = true ->
     good now (settle_ping now answers n) = true.
   Proof.
     intros Ha Hq. destruct (quest_not_good _ _ Hq) as [_ Hb].
@@ -261,7 +262,7 @@ Section MaintStructure.
   Proof. destruct u; reflexivity. Qed.
 
   Lemma settle_ping_shape now answers n : shape (settle_ping now answers n) = shape n.
-  Proof. unfold settle_ping. destruct (answers n); apply apply_update_shape. Qed.
+  Proof. unfold settle_ping. destruct (answers n); try apply apply_update_shape; reflexivity. Qed.
 
   Lemma after_pings_shape now answers nodes i :
     map shape (after_pings id_secure cfg now answers nodes i) = map shape nodes.
